@@ -1,7 +1,7 @@
 """C14 - chance(p) / Bernoulli(p): certain at the extremes, monotone, probability p."""
 from . import common as C, gen_int as G, oracles as O
 
-LEAN_MODULE = ["Urandom.Props.C14", "Urandom.Props.C14T"]
+LEAN_MODULE = ["Urandom.Props.C14", "Urandom.Props.C14T", "Urandom.Props.C13R"]
 RULE = ("requests: Bernoulli::new(p).sample and Random::chance(p) for p in every class (+-0, subnormal, 1-ulp, 1, >1, +-inf, NaN payloads, negative, random, and p equal to / "
         "one ulp either side of the Float01 value the scripted words produce) x word pairs over all leading-zero classes; monotonicity checked on pairs p<q over the same words. "
         "extra: the probability clause exactly on the implementation - the measure of the set of word pairs giving true, by nested interval search with real calls, against p (tolerance p*2^-52 + 2^-64). "
